@@ -22,7 +22,7 @@ Print Assumptions declared_functional.
 
 (* PARTIAL (the fragment is restricted, the quantifier is not).  For EVERY document of the core fragment
    ([core_spec]: properties are $refs / primitives / arrays of ($ref | primitive | enum); schemas are such objects,
-   allOf over ($ref | such object), primitives, enums, arrays; names unique, fixed by the sanitiser, no property key
+   allOf over ($ref | such object | primitive | enum), primitives, enums, arrays, maps and oneOf/anyOf of ($ref | primitive | enum); names unique, fixed by the sanitiser, no property key
    equal to a schema name) whose references are acyclic ([ranked_b] with a rank witness rk) and whose deepest $ref
    chain fits the depth limit ([depth_ok]) - any number of schemas, any declaration order, any depth of $ref / allOf
    chains - every declared schema has exactly one model, the model is not a placeholder, and its fields are exactly the
@@ -71,6 +71,15 @@ Theorem C02_guard_nonvacuous :
      = Some [(sident, true, TPrim PInteger); (skind, false, TRef sKind); (stag, true, TRef sTag); (snames, false, TList (TPrim PString))].
 Proof. exact (conj static_guard_nonvacuous guard_nonvacuous). Qed.
 Print Assumptions C02_guard_nonvacuous.
+
+(* Non-vacuity of the widened fragment (top-level map, top-level oneOf/anyOf, allOf with a primitive member). *)
+Theorem C02_wide_guard_nonvacuous :
+  (core_spec spec_wide = true /\ ranked_b rk_wide spec_wide = true /\ depth_ok rk_wide spec_wide default_max_depth = true)
+  /\ model_fields (parse_doc default_max_depth spec_wide) sMixed
+     = Some [(sident, true, TPrim PInteger); (slabel, true, TPrim PString); (snote, true, TList TEnum)]
+  /\ model_fields (parse_doc default_max_depth spec_wide) sIndex = Some [].
+Proof. exact wide_guard_nonvacuous. Qed.
+Print Assumptions C02_wide_guard_nonvacuous.
 
 (* Non-vacuity for allOf branches WITHOUT properties (allOf:[{$ref: Base}, {required:[label, owner]}]): the document
    meets the guard of C02_partial, and the inherited properties come out required through two allOf levels. *)
